@@ -24,6 +24,7 @@ type c05Cfg struct {
 	maxLen   int
 	depth    int
 	scratchN int // how many of the registers receive derived results (last ones)
+	derived  bool // a register may be created as a user type embedding List (derived structure)
 }
 
 type W = *model.World
@@ -61,6 +62,7 @@ const (
 	opObjSet
 	opObjUnset
 	opObserve
+	opNewDerived
 )
 
 // lop is one list-program operation descriptor.
@@ -133,11 +135,13 @@ func (cfg c05Cfg) label(d lop) string {
 		return "o0.Unset(k)"
 	case opObserve:
 		return r + "<call every observer>"
+	case opNewDerived:
+		return fmt.Sprintf("r%d=<user type embedding List>(%s)", d.Dst, cfg.refName(d.V))
 	}
 	return "?"
 }
 
-var opKindNames = []string{"NewList", "NewList", "NewListOf", "NewListFrom", "Add", "Add", "Add", "Insert", "Replace", "Delete", "Delete", "Delete", "Pop", "Clear", "Reverse", "Sort", "SubList", "Concat", "GetList", "NewObject", "Set", "Unset", "observe"}
+var opKindNames = []string{"NewList", "NewList", "NewListOf", "NewListFrom", "Add", "Add", "Add", "Insert", "Replace", "Delete", "Delete", "Delete", "Pop", "Clear", "Reverse", "Sort", "SubList", "Concat", "GetList", "NewObject", "Set", "Unset", "observe", "NewDerived"}
 
 // c05Ops lists the enabled operation descriptors of a world.
 func c05Ops(cfg c05Cfg) func(w W) []lop {
@@ -175,6 +179,9 @@ func c05Ops(cfg c05Cfg) func(w W) []lop {
 				}
 				if len(cfg.vals) >= 2 {
 					ops = append(ops, lop{K: opNewFrom, Dst: r, V: vref{0, 0}, V2: vref{0, len(cfg.vals) - 1}})
+				}
+				if cfg.derived {
+					ops = append(ops, lop{K: opNewDerived, Dst: r, V: vref{0, 0}})
 				}
 				if cfg.refs {
 					for ri, reg := range w.Regs {
@@ -376,6 +383,8 @@ func c05Apply(cfg c05Cfg) func(w W, d lop) (string, string) {
 			})
 		case opNewFrom:
 			return create(func() at.List { return at.NewListFrom([]interface{}{rv, rv2}) }, func() *model.L { return model.NewL(mv, mv2) })
+		case opNewDerived:
+			return create(func() at.List { return newDL(rv) }, func() *model.L { return model.NewL(mv) })
 		case opAdd0:
 			return mut(false, func(l at.List) interface{} { return l.Add() }, func(m *model.L) {})
 		case opAdd1:
@@ -549,6 +558,7 @@ func c05System(cfg c05Cfg) *bfs.System[W, lop] {
 }
 
 func runC05(c *ev.Ctx) {
+	defer sizeSweep(c, "C05")
 	th := c.Thorough()
 	pick := func(q, t int) int {
 		if th {
@@ -561,6 +571,7 @@ func runC05(c *ev.Ctx) {
 		{name: "all-values (one register, nil/true/1/2/1.5/\"a\")", vals: []interface{}{nil, true, 1, 2, 1.5, "a"}, nregs: 1, maxLen: 6, depth: pick(3, 4)},
 		{name: "two-derivations (r0 main, r1,r2 results)", vals: []interface{}{1, 2}, nregs: 3, scratchN: 2, maxLen: 5, depth: pick(4, 5)},
 		{name: "aliasing (lists and an object nested by reference)", vals: []interface{}{1}, nregs: 3, scratchN: 1, withObj: true, refs: true, maxLen: 4, depth: pick(4, 5)},
+		{name: "derived operands (registers may hold a user type embedding List, used as receiver, argument and element)", vals: []interface{}{1, "a"}, nregs: 3, scratchN: 1, refs: true, derived: true, maxLen: 4, depth: pick(4, 5)},
 		{name: "rejection (unsupported values)", vals: []interface{}{1, "a"}, nregs: 2, scratchN: 1, reject: true, maxLen: 5, depth: pick(4, 5)},
 	}
 	c.Rule("explicit-state BFS over programs of list operations on the real code; after every transition every live container is observed through Count/Empty/Get(-1..n)/TypeOf/6 typed getters/Slice/Contains/IndexOf and compared with a slice-based reference heap model (containers by identity); every operation's panic is compared with the documented domain; a panicking operation must leave every container as the model has it (unchanged). States are merged by canonical key = model heap + private len/cap + backing-array sharing. Scenarios: " + fmt.Sprint(len(cfgs)) + " closed alphabets (see samples).")
